@@ -1,2 +1,4 @@
 import Gomacro.Decls
+import Gomacro.Paths
 import Gomacro.Props.C19
+import Gomacro.Props.C17
